@@ -16,10 +16,10 @@ from .common import Vals, Stubs, real_env, cls_name
 from .c07 import ELT, install_elem_order
 
 MANIFEST_ENTRY = {
-    "category": "other",
-    "text": "symbolic-bounded relational check: each function that enumerates the host container of a set or map (collection enumeration for loops and comprehensions, spread in calls and list literals, destructuring, conversions between list/set/map/object, rendering, hashing, set arithmetic, membership, sum, ls, zip_map) is executed twice on the same abstract content of up to 3 elements (element values symbolic, ordered by an abstract injective rank) under two independent iteration orders of the host container, and the two outcomes must be equal; the seeded pseudo-random generator is proved to read and write only the module-level seed; plus the property's own experiment in small: generated programs run in fresh processes under 8 (thorough: 32) string-hash seeds must print identical text",
-    "note": "container size <= 3 is a bound, not a proof; sorted() canonicalises only when __lt__ is a strict total order on the elements (C07: same-kind elements); CPython dicts preserve insertion order and a set's order is fixed during one iteration (assumed)",
-    "technique": "contract-based relational check on the real AST with a permutation model of host containers (pyvc + z3, symbolic-bounded); bounded multi-process runs under different hash seeds",
+    'category': 'other',
+    'text': "symbolic-bounded relational check: each function that enumerates the host container of a set or map (collection enumeration for loops and comprehensions, spread in calls and list literals, destructuring, conversions between list/set/map/object, rendering, hashing, set arithmetic, membership, sum, ls, zip_map) is executed twice on the same abstract content of up to 3 elements (element values symbolic, ordered by an abstract injective rank) under two independent iteration orders of the host container, and the two outcomes must be equal; the seeded pseudo-random generator is proved to read and write only the module-level seed; plus the property's own experiment in small: generated programs run in fresh processes under 8 (thorough: 32) string-hash seeds must print identical text; stand-ins: consistency of the value order across kinds (asymmetric, total on unequal values, transitive) over a pool of values of every kind on the real classes, permutation invariance of sorted() on mixed lists, and the same program in fresh processes under different hash seeds",
+    'note': "container size <= 3 is a bound, not a proof; sorted() canonicalises only when __lt__ is a strict total order on the elements (C07: same-kind elements); CPython dicts preserve insertion order and a set's order is fixed during one iteration (assumed)",
+    'technique': 'contract-based relational check on the real AST with a permutation model of host containers (pyvc + z3, symbolic-bounded); bounded multi-process runs under different hash seeds',
 }
 PROPERTY = "C12"
 LEVEL = "other"
